@@ -240,6 +240,9 @@ func (fr *Frame) abstractInvoke(ins ssa.Instruction, recv *Val, it types.Type, m
 	case "(io.Writer).Write":
 		vc.trusted["io.Writer.Write (writer contract, DESIGN 3.5)"] = true
 		vc.oblige(fr, ins, "nil-deref", 2, neq(recv.L[0], "0"), "Write on nil io.Writer")
+		if vc.taint && vc.specDepth == 0 {
+			fr.checkSinks("io.Writer.Write", args)
+		}
 		return fr.writerCall(recv, args[0]), true
 	}
 	return nil, false
